@@ -39,7 +39,7 @@ META = {
     'decided': ['D1 element/attribute vocabulary',
                 'D2 value vocabularies (direction, access) round-trip',
                 'D3 per-complete-type emission and counter/signature '
-                'pairing', 'D4 known-interface reuse polarity'],
+                'pairing; parse state is per parse (no class-level container)', 'D4 known-interface reuse polarity'],
     'undecided': ['equality of declared and recovered interfaces for '
                   'arbitrary signatures'],
 }
@@ -298,6 +298,11 @@ def run(ctx):
                    'interface known=%s, skip-known=%s must %s the '
                    'definition; extracted: %s' % (
                        k, s_, want, sorted(rows.get((k, s_), []))))
+    from .c09 import per_instance_registries
+    per_instance_registries(
+        ctx, 'C15.D3', ('introspection', 'interface'),
+        'the interfaces parsed from one XML document include those of '
+        'every document parsed before')
     ctx.floor('C15.D1', 8)
     ctx.floor('C15.D2', 4)
     ctx.floor('C15.D3', 5)
